@@ -45,9 +45,13 @@ def gen_tree(rng, depth, malformed):
         return sympy.Mul(*[gen_tree(rng, depth - 1, malformed) for _ in range(int(rng.integers(2, 4)))])
     if r < 0.8:
         b = gen_tree(rng, depth - 1, malformed)
-        e = rng.choice(["half", "2", "3", "-1", "sym"])
+        e = rng.choice(["half", "2", "3", "-1", "sym", "nested_half", "nested_32", "nested_third"])
         if e == "half":
             return sympy.sqrt(b * b + 1)
+        if e.startswith("nested"):
+            # a power of a power with a non-integer outer exponent: (b^2)^(1/2) is |b|, not b
+            q = {"nested_half": sympy.Rational(1, 2), "nested_32": sympy.Rational(3, 2), "nested_third": sympy.Rational(1, 3)}[e]
+            return sympy.Pow(sympy.Pow(b, 2), q)
         if e == "sym":
             return sympy.Pow(b * b + 2, syms[int(rng.integers(0, 3))])
         return sympy.Pow(b, int(e))
@@ -191,7 +195,7 @@ def forward(rng, n, out):
         stats["nodes"] += sum(1 for _ in sympy.preorder_traversal(t))
         stats["floats"] += sum(1 for s_ in sympy.preorder_traversal(t) if isinstance(s_, sympy.Float))
         stats["user_functions"] += sum(1 for s_ in sympy.preorder_traversal(t) if str(type(s_)) in ("f", "g", "h"))
-        pts = [{k: float(rng.uniform(0.2, 1.5)) for k in SYMS} for _ in range(3)]
+        pts = [{k: float(rng.uniform(0.2, 1.5)) for k in SYMS} for _ in range(3)] + [{k: float(rng.uniform(-1.5, 1.5)) for k in SYMS} for _ in range(2)]
         mine = {}          # the caller's (still empty) table: must be the one that is filled and returned
         symbols = mine
         try:
@@ -232,9 +236,6 @@ def forward(rng, n, out):
                 mv = eval_code(code, pt)
             except (ValueError, ZeroDivisionError, OverflowError):
                 mv = float("nan")
-            if not same(rv, mv):
-                out["disagreements"].append({"part": "sympy_to_casadi", "tree": sympy.srepr(t), "point": pt, "real": rv, "model": mv})
-                break
             # the property itself on the real code: same value as sympy's own evaluation
             try:
                 sub = {sympy.Symbol(k): v for k, v in pt.items()}
@@ -245,6 +246,9 @@ def forward(rng, n, out):
                 sv = None
             if sv is not None and math.isfinite(rv) and not same(rv, sv, 1e-8):
                 out["failures"].append({"unit": "sympy_to_casadi", "class": "value", "input": {"expr": str(t), "point": pt}, "expected": sv, "observed": rv, "what": "converted expression evaluates differently from the sympy source"})
+                break
+            if not same(rv, mv):
+                out["disagreements"].append({"part": "sympy_to_casadi", "tree": sympy.srepr(t), "point": pt, "real": rv, "model": mv})
                 break
     out["cases"] += n
     out["distribution"]["sympy_to_casadi"] = stats
